@@ -56,7 +56,9 @@
         block, for every history; so the in-place write path, taken when ref == 1, is seen by the
         written handle alone) and xml_handles_refine_values (the heap model with copy-on-write
         refines the value store of the spec), xml_assign_from_own_content_item (the source of an assignment may
-        be a content item of the assigned Variant itself: node = node.toElement().content[k])
+        be a content item of the assigned Variant itself: node = node.toElement().content[k]); the alphabet of operations
+        includes VSubAssign i k j (a content item assigned in place from another Variant - a copy, an ancestor, a
+        descendant; j = i is outside the alphabet: the code builds a cycle there, see checks/C16.py level_note)
 
         A reference obtained from the non-const toElement() and KEPT by the caller
         (`Element& e = v.toElement(); Variant w(v); e.type = ...;`):
@@ -401,6 +403,17 @@ Example ex_hoist_own_child :
   vabs (vrun (h ++ [VSub 0 0 0])) = [Some (N 0 0 [98] [] [N 0 0 [99] [] []]); None; None] /\
   vabs (vrun (h ++ [VSub 0 0 0; VSub 0 0 0])) = [Some (N 0 0 [99] [] []); None; None] /\
   filter (fun n => negb (Nat.eqb n 0)) (map rc (hp (vrun (h ++ [VSub 0 0 0; VSub 0 0 0; VDel 0])))) = [].
+Proof. repeat split; vm_compute; reflexivity. Qed.
+
+(* a content item assigned IN PLACE from another Variant (op VSubAssign, covered by every theorem above that ranges over
+   operations): slot 1 holds a copy of slot 0 = a(b); the item b of slot 0 := slot 1 gives a(a(b)), slot 1 keeps a(b);
+   then the item of the descendant copied out to slot 2 := its ancestor slot 0 *)
+Example ex_item_assigned_from_ancestor :
+  let h := [VElem 0 [97]; VElem 1 [98]; VChild 0 1; VCopy 1 0; VSubAssign 0 0 1] in
+  vabs (vrun h) = [Some (N 0 0 [97] [] [N 0 0 [97] [] [N 0 0 [98] [] []]]); Some (N 0 0 [97] [] [N 0 0 [98] [] []])] /\
+  vabs (vrun (h ++ [VSub 2 0 0; VSubAssign 2 0 0; VDel 0; VDel 1])) =
+    [None; None; Some (N 0 0 [97] [] [N 0 0 [97] [] [N 0 0 [97] [] [N 0 0 [98] [] []]]])] /\
+  vabs (vrun (h ++ [VSubAssign 0 0 0])) = vabs (vrun h).
 Proof. repeat split; vm_compute; reflexivity. Qed.
 
 (* ---- a reference obtained from toElement() and kept by the caller -------------------------- *)
